@@ -327,6 +327,71 @@ Theorem closed_listener_is_final : forall (S : Type) (ps : plugins_chk S) (block
   l_listener st = Closed -> l_listener (lrun ps blocked env_step ack st evs) = Closed.
 Proof. exact closed_final. Qed.
 
+(** The same at the moment it matters most: a request whose response closes, handled in ANY state of
+    the listener -- in particular [Unlinked], between the removal of the socket file and the re-listen
+    -- is answered on its connection, and from then on nobody listens and every new connection is
+    refused, whatever follows (also the [ERelisten] that was under way). *)
+Theorem closing_response_is_final : forall (S : Type) (ps : plugins_chk S) (blocked : bytes -> S -> bool)
+    (env_step : N -> S -> S * bool) (ack : S -> S) (st : lts_state S) (k : N) (req : bytes)
+    (hr : handler_response) (s' : S) (evs : list event),
+  conn_get k (l_conns st) = Some (PComplete req) -> blocked req (l_env st) = false ->
+  handle_chk ps req (l_env st) = Ok (hr, s') -> hr_close hr = true ->
+  let st1 := lstep ps blocked env_step ack st (EHandle k) in
+  conn_get k (l_conns st1) = Some (PReplied (hr_data hr)) /\
+  l_listener (lrun ps blocked env_step ack st1 evs) = Closed /\
+  forall j, conn_get j (l_conns (lrun ps blocked env_step ack st1 evs)) = None ->
+    conn_get j (l_conns (lstep ps blocked env_step ack (lrun ps blocked env_step ack st1 evs) (EConnect j))) = Some PRefused.
+Proof. exact closing_response_final. Qed.
+
+(** ... and a close from outside the socket ([Manager::shutdown]) in any state of the listener. *)
+Theorem outside_close_is_final : forall (S : Type) (ps : plugins_chk S) (blocked : bytes -> S -> bool)
+    (env_step : N -> S -> S * bool) (ack : S -> S) (st : lts_state S) (e : N) (evs : list event),
+  snd (env_step e (l_env st)) = true ->
+  l_listener (lrun ps blocked env_step ack (lstep ps blocked env_step ack st (EEnv e)) evs) = Closed.
+Proof. exact env_close_final. Qed.
+
+(** ---- the accept loop itself ([loop_step]: position of the loop, the channel's messages in order,
+    the socket file), of which [Listening | Unlinked | Closed] is the abstraction [loop_listener] ----
+
+    In EVERY state: a close that has been sent (or a loop that has stopped) stays so, whatever is
+    sent, removed or received afterwards. *)
+Theorem accept_loop_close_is_final : forall (evs : list loop_event) (st : loop_state),
+  close_pending st = true -> close_pending (loop_run st evs) = true.
+Proof. exact loop_close_final. Qed.
+
+(** In EVERY state with a close pending the loop has stopped after at most two steps of its own
+    (receive the watcher's [false]; find the close while emptying the channel after the pause),
+    whatever happens in between; then nobody can connect. *)
+Theorem accept_loop_stops_after_close : forall (st : loop_state) (evs : list loop_event),
+  close_pending st = true -> (2 <= length (filter is_floop evs))%nat ->
+  lp_pc (loop_run st evs) = LStopped /\ connectable (loop_run st evs) = false.
+Proof. exact loop_close_stops. Qed.
+
+(** A close that is pending while the loop pauses (listener dropped, path not yet bound again) or
+    has stopped: the loop never gets back to [accept()] -- a closed instance does not bind the
+    control socket again.  (This is the [if close { break 'outer }] of the emptying loop.) *)
+Theorem accept_loop_never_rebinds_after_close : forall (st : loop_state) (evs : list loop_event),
+  close_pending st = true -> lp_pc st <> LAccept ->
+  lp_pc (loop_run st evs) <> LAccept /\ connectable (loop_run st evs) = false.
+Proof. exact loop_never_rebinds. Qed.
+
+(** The reachable states keep the invariant ... *)
+Theorem accept_loop_invariant : forall evs : list loop_event, loop_inv (loop_run loop_init evs).
+Proof. intros evs. apply loop_inv_run. exact loop_inv_init. Qed.
+
+(** ... under which the re-bind after the pause always succeeds (no close pending) ... *)
+Theorem accept_loop_rebinds : forall st : loop_state,
+  loop_inv st -> lp_pc st = LPause -> close_pending st = false ->
+  loop_step st FLoop = {| lp_pc := LAccept; lp_chan := []; lp_file := true |}.
+Proof. exact loop_rebind_succeeds. Qed.
+
+(** ... and every step of the loop is zero or one step of the coarse listener of the theorems above
+    ([EUnlink] for the removal, [ERelisten] for the re-bind, a closing event when a close is SENT). *)
+Theorem accept_loop_refines_listener : forall (st : loop_state) (ev : loop_event),
+  loop_inv st ->
+  l_listener (fold_left coarse_step (coarse_events st ev) (coarse_of st)) = loop_listener (loop_step st ev).
+Proof. exact loop_simulates. Qed.
+
 (** A failed [accept()] (EMFILE: the process is out of file descriptors) changes nothing ... *)
 Theorem accept_error_is_harmless : forall (S : Type) (ps : plugins_chk S) (blocked : bytes -> S -> bool)
     (env_step : N -> S -> S * bool) (ack : S -> S) (st : lts_state S),
@@ -431,6 +496,36 @@ Example ex_unlink :
   = Some (PReplied (B "ok ""a""")) /\
   conn_get 3 (l_conns (lrun fx_plugins_chk fx_blocked fx_env_step fx_ack st [ERelisten; EFin 1; EHandle 1; EConnect 3])) = Some (POpen []).
 Proof. repeat split; vm_compute; reflexivity. Qed.
+(** the socket file is removed, then -- nobody is bound to the path -- connection 1's [t-close] is
+    completed and answered, connection 2's [ping] too; the re-listen that was under way finds the
+    instance closed.  In the accept loop: remove, the watcher's [false], the loop pauses, the close
+    arrives during the pause, the loop wakes up and stops; with the emptying loop's test negated
+    ([loop_step_neg], NOT the code) the same history ends with the path bound again. *)
+Example ex_close_while_unlinked :
+  let st := lrun fx_plugins_chk fx_blocked fx_env_step fx_ack (lts_init fx_init)
+              [EConnect 1; ESend 1 (B "t-close"); EConnect 2; ESend 2 (B "ping a"); EUnlink] in
+  l_listener st = Unlinked /\
+  conn_get 1 (l_conns (lrun fx_plugins_chk fx_blocked fx_env_step fx_ack st [EFin 1])) = Some (PComplete (B "t-close")) /\
+  handle_chk fx_plugins_chk (B "t-close") (l_env st) = Ok ({| hr_data := B "ok closing"; hr_close := true |}, l_env st) /\
+  l_listener (lrun fx_plugins_chk fx_blocked fx_env_step fx_ack st [EFin 1; EHandle 1; ERelisten]) = Closed /\
+  run_conc (XL [XL [XN 0; XN 1]; XL [XN 1; XN 1; XB (B "t-close")]; XL [XN 0; XN 2]; XL [XN 1; XN 2; XB (B "ping a")];
+                XL [XN 15; XN 0]; XL [XN 11; XN 150]; XL [XN 2; XN 2]; XL [XN 3; XN 2]; XL [XN 2; XN 1]; XL [XN 3; XN 1];
+                XL [XN 16; XN 0]; XL [XN 7; XN 3; XB (B "ping")]])
+  = XL [XL [XN 2; XL [XN 0; XB (B "ok ""a""")]]; XL [XN 1; XL [XN 0; XB (B "ok closing")]]; XL [XN 0; XL [XN 7]]; XL [XN 3; XL [XN 1]]] /\
+  run_conc (XL [XL [XN 0; XN 2]; XL [XN 1; XN 2; XB (B "ping a")]; XL [XN 15; XN 0]; XL [XN 2; XN 2]; XL [XN 3; XN 2];
+                XL [XN 16; XN 0]; XL [XN 7; XN 3; XB (B "ping")]])
+  = XL [XL [XN 2; XL [XN 0; XB (B "ok ""a""")]]; XL [XN 0; XL [XN 6]]; XL [XN 3; XL [XN 0; XB (B "ok")]]].
+Proof. repeat split; vm_compute; reflexivity. Qed.
+Example ex_accept_loop :
+  let evs := [FRemove; FWatch; FLoop; FClose; FLoop; FLoop] in
+  close_pending (loop_run loop_init [FRemove; FWatch; FLoop; FClose]) = true /\
+  lp_pc (loop_run loop_init [FRemove; FWatch; FLoop; FClose]) = LPause /\
+  lp_pc (loop_run loop_init evs) = LStopped /\
+  loop_run loop_init [FRemove; FWatch; FLoop; FLoop] = loop_init /\
+  loop_listener (loop_run loop_init [FRemove; FWatch; FLoop]) = Unlinked /\
+  coarse_events (loop_run loop_init [FRemove; FWatch; FLoop]) FLoop = [ERelisten] /\
+  connectable (fold_left loop_step_neg evs loop_init) = true /\ lp_chan (fold_left loop_step_neg evs loop_init) = [].
+Proof. repeat split. Qed.
 Example ex_post_send :
   let st := lrun fx_plugins_chk fx_blocked fx_env_step fx_ack (lts_init fx_init) [EConnect 1; ESend 1 (B "shutdown"); EDrop 1] in
   conn_get 1 (l_conns st) = Some (PGone (B "shutdown") false) /\ fx_acks (l_env st) = 0 /\
